@@ -477,9 +477,9 @@ class Checker(metaclass=abc.ABCMeta):
             else:
                 self.tag('arithmetic-error-in-unused-plural-forms', message)
         codomain = expr.codomain()
+        uncov_rngs = []
         if codomain is not None:
             (x, y) = codomain
-            uncov_rngs = []
             if x > 0:
                 uncov_rngs += [range(x)]
             if y + 1 < n:
